@@ -4,7 +4,9 @@ package main
 
 import (
 	"fmt"
+	"go/constant"
 	"go/token"
+	"go/types"
 	"strings"
 
 	"golang.org/x/tools/go/ssa"
@@ -178,13 +180,42 @@ func ruleP02Fold(p *Prog, r *Report) {
 			if ents == nil {
 				return false, "e is not the loop element"
 			}
-			n, recv, _, _ := methodCall(ents)
-			if n != "Entries" {
-				return false, "e does not range over r.Entries()"
+			entriesOfEvery := func(v ssa.Value) (bool, string) {
+				n, recv, _, _ := methodCall(v)
+				if n != "Entries" {
+					return false, "e does not range over r.Entries()"
+				}
+				rs := rangeElemOf(recv)
+				if rs == nil || strip(rs) != ssa.Value(total.Params[0]) {
+					return false, "r does not range over the records given"
+				}
+				return true, ""
 			}
-			rs := rangeElemOf(recv)
-			if rs == nil || strip(rs) != ssa.Value(total.Params[0]) {
-				return false, "r does not range over the records given"
+			if ok, why := entriesOfEvery(ents); !ok {
+				// the entries of all records collected first, in one list: every append to that
+				// list is r.Entries()... of every record given, nothing else goes in
+				apps, leaves := accWeb(ents)
+				okList := len(apps) > 0
+				for _, l := range leaves {
+					if !isNilConst(l) && !isEmptySliceLit(l) {
+						okList = false
+					}
+				}
+				for _, a := range apps {
+					if len(a.Call.Args) < 2 {
+						okList = false
+						continue
+					}
+					if ok2, _ := entriesOfEvery(a.Call.Args[1]); !ok2 {
+						okList = false
+					}
+					if only, _ := onlyLoopGuards(a.Block()); !only {
+						okList = false
+					}
+				}
+				if !okList {
+					return false, why
+				}
 			}
 			return true, "e.Duration() for every entry e of every record r given"
 		})
@@ -520,6 +551,22 @@ func ruleP02Close(p *Prog, r *Report) {
 	_, rec, args, _ := methodCallOf(eor)
 	recColl := rangeElemOf(rec)
 	r.check(recColl != nil && strip(recColl) == ssa.Value(f.Params[1]), rule, "close:record", p.instrPos(eor), "EndOpenRange is applied to each record given", "EndOpenRange is not applied to the loop's record")
+	// … to EACH of them: the loop over the records is left before its end only with an error —
+	// a successful return from inside the loop leaves the open ranges of the later records open
+	// (they then count zero although --now was given)
+	for i, ret := range returnsOf(f) {
+		inLoop := false
+		for _, g := range guardsOf(ret.Block()) {
+			if isLoopGuard(g) {
+				inLoop = true
+			}
+		}
+		if !inLoop || len(ret.Results) == 0 {
+			continue
+		}
+		ev := retResult(ret, len(ret.Results)-1)
+		r.check(!isNilConst(ev) && p.nilnessAt(ret.Block(), ev, 0) == nnNonNil, rule, fmt.Sprintf("close:every-record:return#%d", i), p.instrPos(ret), "a return from inside the loop over the records reports an error", "CloseOpenRanges returns successfully from inside its loop over the records: the open ranges of the records after that one are not closed, and count zero although --now was given")
+	}
 	// its error must fail the evaluation
 	if e := resultOf(eor, 0); e == nil {
 		r.bad(rule, "close:error", p.instrPos(eor), "the error of EndOpenRange is discarded (an unclosable range would be silently skipped)")
@@ -653,6 +700,44 @@ func valueRows(v ssa.Value, depth int, visiting map[ssa.Value]bool) []vrow {
 					out = append(out, rw)
 				}
 				return out
+			}
+		}
+	}
+	// a field of the small struct a closure or helper hands back instead of several results
+	if cv, idx, isComp := componentOf(v); isComp {
+		if c, isCall := cv.(*ssa.Call); isCall {
+			if g := staticCallee(c); g != nil && (g.Parent() != nil || isHelper(g)) && g.Signature.Results().Len() == 1 && len(returnsOf(g)) > 0 {
+				if isHelper(g) {
+					g = originFn(g)
+					ht.ctx[g] = c
+				}
+				var out []vrow
+				okAll := true
+				for _, ret := range returnsOf(g) {
+					fv, isLit := compositeLitField(ret.Results[0], idx)
+					if !isLit {
+						okAll = false
+						break
+					}
+					rw := vrow{guards: guardsOf(ret.Block()), at: ret, call: c, val: fv}
+					st, _ := ret.Results[0].Type().Underlying().(*types.Struct)
+					for fi := 0; st != nil && fi < st.NumFields(); fi++ {
+						if fi != idx && isErrorType(st.Field(fi).Type()) {
+							if ev, _ := compositeLitField(ret.Results[0], fi); ev != nil {
+								rw.errv = ev
+							} else {
+								rw.errv = ssa.NewConst(nil, st.Field(fi).Type()) // left at its zero value
+							}
+						}
+					}
+					if fv == nil && st != nil && idx < st.NumFields() {
+						rw.val = zeroConst(st.Field(idx).Type()) // a field the literal leaves out
+					}
+					out = append(out, rw)
+				}
+				if okAll {
+					return out
+				}
 			}
 		}
 	}
@@ -791,4 +876,70 @@ func dayClass(gs []Guard) string {
 		return map[int64]string{-1: "yesterday", 0: "today", 1: "tomorrow"}[s]
 	}
 	return "?"
+}
+
+// zeroConst: the zero value of t as an SSA constant (nil for types that have no constant form).
+func zeroConst(t types.Type) ssa.Value {
+	switch u := t.Underlying().(type) {
+	case *types.Basic:
+		switch {
+		case u.Info()&types.IsString != 0:
+			return ssa.NewConst(constant.MakeString(""), t)
+		case u.Info()&types.IsBoolean != 0:
+			return ssa.NewConst(constant.MakeBool(false), t)
+		case u.Info()&types.IsNumeric != 0:
+			return ssa.NewConst(constant.MakeInt64(0), t)
+		}
+	case *types.Pointer, *types.Interface, *types.Slice, *types.Map, *types.Signature, *types.Chan:
+		return ssa.NewConst(nil, t)
+	}
+	return nil
+}
+
+// compositeLitField: v is a struct value built by a composite literal on the spot (`T{a: x}`);
+// returns what the literal puts into field i (nil when it leaves the field out).
+func compositeLitField(v ssa.Value, i int) (ssa.Value, bool) {
+	u, ok := v.(*ssa.UnOp)
+	if !ok || u.Op != token.MUL {
+		return nil, false
+	}
+	a, ok := u.X.(*ssa.Alloc)
+	if !ok || a.Comment != "complit" {
+		return nil, false
+	}
+	var out ssa.Value
+	for _, ref := range *a.Referrers() {
+		fa, isFA := ref.(*ssa.FieldAddr)
+		if !isFA || fa.Field != i {
+			continue
+		}
+		for _, r2 := range *fa.Referrers() {
+			if st, isSt := r2.(*ssa.Store); isSt && st.Addr == ssa.Value(fa) {
+				if out != nil {
+					return nil, false
+				}
+				out = st.Val
+			}
+		}
+	}
+	return out, true
+}
+
+// isEmptySliceLit: v is `[]T{}` (a slice of a zero-length array literal) or make([]T, 0[, n]).
+func isEmptySliceLit(v ssa.Value) bool {
+	switch x := strip(v).(type) {
+	case *ssa.Slice:
+		if a, ok := x.X.(*ssa.Alloc); ok {
+			if pt, ok := a.Type().Underlying().(*types.Pointer); ok {
+				if at, ok := pt.Elem().Underlying().(*types.Array); ok && at.Len() == 0 {
+					return true
+				}
+			}
+		}
+	case *ssa.MakeSlice:
+		if k, ok := constInt(x.Len); ok && k == 0 {
+			return true
+		}
+	}
+	return false
 }
